@@ -136,14 +136,20 @@ def main():
     keep = os.environ.get("MUT_KEEP")
     if keep and res.get("patch_applies") and res.get("existing_suite_pass") and res.get("demo_with_patch_fail") and res.get("demo_without_patch_pass"):
         name = os.path.basename(os.path.dirname(os.path.dirname(mdir.rstrip("/")))) + "-" + os.environ.get("MUT_PREFIX", "") + os.path.basename(mdir.rstrip("/"))
+        name = os.environ.get("MUT_KEEP_NAME", name)
         d = os.path.join("/verif/seeded", name)
         os.makedirs(d, exist_ok=True)
         src = os.path.join(mdir, "patch.rebased.diff") if res.get("rebased") else patch
-        shutil.copy(src, os.path.join(d, "patch.diff"))
-        shutil.copy(os.path.join(mdir, "demo_test.go"), os.path.join(d, "demo_test.go"))
+        def cp(a, b):
+            if os.path.abspath(a) != os.path.abspath(b):
+                shutil.copy(a, b)
+        cp(src, os.path.join(d, "patch.diff"))
+        cp(os.path.join(mdir, "demo_test.go"), os.path.join(d, "demo_test.go"))
         notes = os.path.join(mdir, "notes.md")
         if os.path.exists(notes):
-            shutil.copy(notes, os.path.join(d, "notes.md"))
+            cp(notes, os.path.join(d, "notes.md"))
+        if os.path.exists(os.path.join(d, "patch.rebased.diff")):
+            os.remove(os.path.join(d, "patch.rebased.diff"))
         caught = [t for t in tiers if res.get("check_%s_exit" % t) == 1]
         head = subprocess.check_output(["git", "-C", "/repo", "rev-parse", "--short", "HEAD"], text=True).strip()
         meta = {"breaks_property": prop, "source": "independent sub-agent given only the property text and a scratch worktree",
